@@ -1,6 +1,6 @@
 """C08 Agent kinematics: moves and turns do exactly what the action says."""
 from gym_gridverse.action import Action
-from gym_gridverse.grid_object import Telepod
+from gym_gridverse.grid_object import Door, Telepod
 
 from ..runner import Obligation
 from ..stubs import SIGMA_2C, SIGMA_FULL, SymRng, lazy_state
@@ -11,7 +11,7 @@ from .common import (ACTIONS, CHAINS, FROM_TURNS, MOVE_UNIT, SINGLE, TURNS,
 
 PROPERTY = 'C08'
 LEVEL = 'other'
-SCOPE = ('one-step kinematic law and preservation of "agent in grid on a non-blocking cell" for every built-in '
+SCOPE = ('short histories (2-3 steps of the full chain on the objects the earlier steps produced) and the one-step kinematic law and preservation of "agent in grid on a non-blocking cell" for every built-in '
          'transition function and the shipped chains, over lazily symbolic grids: the verdict covers every content '
          'of the cells the code did not read')
 BOUNDS = {
@@ -88,6 +88,42 @@ def mk(fname, H, W, sigma, held_sigma=None):
     return h
 
 
+HIST = [e for e in SIGMA_2C if e[0] in ('Floor', 'Wall', 'Door(CLOSED,YELLOW)', 'Door(LOCKED,YELLOW)', 'Key(YELLOW)', 'Box(Floor)')]
+
+
+def mk_history(H, W, nsteps):
+    """the kinematic law along short HISTORIES of the full chain: the second (third) step starts from the very objects the earlier
+    steps produced, so state kept inside objects besides (type, status, colour) cannot hide; the oracle looks at statuses only"""
+    f = transition('chain[move,turn,actuate_door,actuate_box,pickndrop]')
+
+    def h(sx):
+        state, world = lazy_state(sx, H, W, HIST, held_sigma=[e for e in HIST if e[0].startswith('Key')])
+        for step in range(nsteps):
+            a = sx.choice(f'a{step}', ACTIONS)
+            py, px, o = state.agent.position.y, state.agent.position.x, state.agent.orientation
+            cells = post_cells(state)
+            ey, ex = py, px
+            if a in MOVE_UNIT:
+                dy, dx = rot(TURNS[o], *MOVE_UNIT[a])
+                ty, tx = py + dy, px + dx
+                if sym_and(0 <= ty, ty < H, 0 <= tx, tx < W):
+                    k = (int(ty), int(tx))
+                    target = cells[k] if k in cells else world.make(*k)  # the object as the history left it
+                    if not blocks_movement(target):  # restated from type and status, not from the object's own flag
+                        ey, ex = ty, tx
+                        if isinstance(target, Door):
+                            sx.cover('moved-onto-a-door-opened-earlier' if step else 'moved-onto-an-open-door')
+            eo = o
+            if a in (Action.TURN_LEFT, Action.TURN_RIGHT):
+                eo = FROM_TURNS[(TURNS[o] + (3 if a is Action.TURN_LEFT else 1)) % 4]
+            f(state, a)
+            sx.check(state.agent.orientation is eo, f'heading-step{step}')
+            sx.check(sym_and(state.agent.position.y == ey, state.agent.position.x == ex), f'position-step{step}',
+                     f'step {step} action {a.name}')
+        sx.cover('history')
+    return h
+
+
 def h_turn_algebra(sx):
     """left then right, right then left, and four equal turns restore the heading; never displace"""
     from ..stubs import ORS
@@ -109,6 +145,8 @@ def obligations(tier):
     sigma = SIGMA_2C if tier == 'quick' else SIGMA_FULL
     shp = shapes(3, 3) if tier == 'quick' else shapes(4, 4) + [(5, 5)]
     obs = [Obligation('turn-algebra', h_turn_algebra)]
+    for (H, W, n) in ([(1, 2, 3), (1, 3, 2), (2, 2, 2)] if tier == 'quick' else [(1, 2, 3), (1, 3, 3), (2, 2, 3), (2, 3, 2)]):
+        obs.append(Obligation(f'history-{n}steps-{H}x{W}', mk_history(H, W, n), dict(H=H, W=W, steps=n, alphabet=[e[0] for e in HIST], dynamics='full chain')))
     for fname in list(SINGLE) + list(CHAINS):
         scan = fname in ('move_obstacles', 'teleport')
         for (H, W) in shp:
